@@ -99,7 +99,8 @@ def install_complex(sym):
             return agg(Rat(w), rz(0)) if q >= 0 else agg(rz(0), Rat(w))
         w = S.newreal('csq'); nn = a.n * a.d >= 0
         st.pc += [w >= 0, z3.If(nn, w * w * a.d == a.n, w * w * a.d == -a.n)]
-        return agg(Rat(z3.If(nn, w, 0)), Rat(z3.If(nn, 0, w)))
+        zero_ = z3.RealVal(0)
+        return agg(Rat(z3.If(nn, w, zero_)), Rat(z3.If(nn, zero_, w)))
     def clog(S, st, args):
         a, b = R(args[0]), R(args[1])
         L = S.newreal('lnmod'); A = S.newreal('carg')
